@@ -1063,6 +1063,44 @@ def path_analysis(rep, tier):
             if pushed and not sound:
                 kinds = sorted({st.rstrip('LR') for st in path if not st.startswith('and')})
                 fails.setdefault(f'C08.filter.path.{tag}.{"+".join(kinds)}', (sql, f'fetch from int2 is filtered by `{w}` although WHERE = true does not imply it (path {"/".join(path)})'))
+    # what is pushed must keep every row the condition accepts, whatever the operand order and the operator: the pushed text is evaluated against
+    # the written condition on a small table (sqlite3) - constant on the left / on the right, all comparison operators, BETWEEN, IN
+    import sqlite3
+    con = sqlite3.connect(':memory:')
+    con.execute('create table tbl2 (id, y)')
+    con.executemany('insert into tbl2 values (?, ?)', [(i, v) for i, v in enumerate([0, 1, 2, 3, 4, None])])
+    leaves = [f'{a} {op} {b}' for op in ('<', '<=', '>', '>=', '=', '!=', '<>') for a, b in (('t2.y', '2'), ('2', 't2.y'))]
+    leaves += ['t2.y BETWEEN 1 AND 2', 't2.y NOT BETWEEN 1 AND 2', 't2.y IN (1, 3)', 't2.y NOT IN (1, 3)', '2 + 1 > t2.y', 't2.y - 1 < 2', '-t2.y < -2', 't2.y IS NULL', 't2.y IS NOT NULL']
+    for leaf in leaves:
+        for tmpl in ('{l}', '{l} AND t1.x = 2', 't1.x = 2 AND {l}', 't1.x = 2 AND {l} AND t1.z = 3'):
+            sql = f'SELECT * FROM int1.tbl1 AS t1 JOIN int2.tbl2 AS t2 ON t1.id = t2.id WHERE {tmpl.format(l=leaf)}'
+            n += 1
+            try:
+                p = plan(sql)
+            except Exception:
+                continue
+            f2 = [f for f in fetches(p) if f.integration == 'int2']
+            if not f2 or f2[0].query.where is None:
+                continue
+            try:
+                w = f2[0].query.where.to_string()
+                want = {r[0] for r in con.execute(f'select id from tbl2 as t2 where {leaf}')}
+                got = {r[0] for r in con.execute(f'select id from tbl2 as t2 where {w}')} if ' IN :' not in w and ':Result' not in w else None
+                if got is None:
+                    # the semi-join restriction on the key is a separate obligation: evaluate the other conjuncts only
+                    from mindsdb_sql.parser.ast import BinaryOperation as _BO
+                    def conj(x):
+                        return conj(x.args[0]) + conj(x.args[1]) if isinstance(x, _BO) and x.op.lower() == 'and' else [x]
+                    parts = [c for c in conj(f2[0].query.where) if 'Result' not in c.to_string()]
+                    w = ' AND '.join(c.to_string() for c in parts) or '1 = 1'
+                    got = {r[0] for r in con.execute(f'select id from tbl2 as t2 where {w}')}
+            except Exception:
+                continue
+            if not want <= got:
+                opn = {'<': 'lt', '<=': 'le', '>': 'gt', '>=': 'ge', '=': 'eq', '!=': 'ne', '<>': 'ne'}
+                tagk = next((opn[o] for o in ('<=', '>=', '<>', '!=', '<', '>', '=') if f' {o} ' in leaf), 'pred')
+                side = 'const-left' if leaf[0].isdigit() or leaf.startswith('-') else 'col-left'
+                fails.setdefault(f'C08.filter.meaning.{tagk}.{side}', (sql, f'the fetch from int2 is filtered by `{w}`, which drops rows that `{leaf}` accepts (ids {sorted(want - got)} of the rows y = 0, 1, 2, 3, 4, NULL)'))
     return n, fails
 
 
@@ -1151,8 +1189,10 @@ def outer_obligation(rep):
                       alias=None, parentheses=False, mode=None, modifiers=ex.param_container([]))
         q.fields.update(fields)
         ex.method_stubs['__len__'] = lambda ex_, v_, a, k: pysym.mk_int('len(targets)')
-        ex.method_stubs['__getitem__'] = lambda ex_, v_, a, k: SymObj(None, 'targets[0]', prov='param')
-        ex.path_state.update(q=q, added=added, join_step=join_step, fields=fields)
+        t0 = SymObj(None, 'targets[0]', prov='param')
+        t0.known_not_none = True
+        ex.method_stubs['__getitem__'] = lambda ex_, v_, a, k: t0
+        ex.path_state.update(q=q, added=added, join_step=join_step, fields=fields, t0=t0)
         return [selfo, q], {}
 
     def post(ex, o):
@@ -1165,6 +1205,12 @@ def outer_obligation(rep):
                 v = st['fields'][f]
                 if not (v.cls_set == frozenset({type(None)})):
                     return f'the join result is returned as the answer although the query has a {f} clause'
+            # ... and whose select list is exactly `*`
+            ok1, _ = ex.valid(z3.Int('len(targets)') == 1, pc=o.pc)
+            if not ok1:
+                return 'the join result is returned as the answer although the select list may have more than one item'
+            if st['t0'].cls_set != frozenset({Star}):
+                return 'the join result is returned as the answer although the select list is not known to be `*`'
             return None
         step = o.value
         if not (isinstance(step, SymObj) and step.cls is QueryStep) or st['added'] != [step]:
